@@ -133,3 +133,49 @@ func Programs() []*Prog {
 	}
 	return out
 }
+
+
+// LookupPrograms: shapes that stress name lookups across files: an include whose
+// base name contains dots, and a three-level service chain that crosses a file
+// boundary while the including file has an unrelated service of the grandparent's name.
+func LookupPrograms() []*Prog {
+	var out []*Prog
+	i32, str := idl.T(idl.I32), idl.T(idl.String)
+	{
+		inc := &idl.File{Path: "common.v1.thrift", Namespaces: []*idl.Namespace{{Lang: "go", Name: "dot.commonv1"}}}
+		money := &idl.Struct{Cat: "struct", Name: "Money", Fields: []*idl.Field{{ID: 1, ExplicitID: true, Name: "units", Type: idl.T(idl.I64)}, {ID: 2, ExplicitID: true, Name: "currency", Type: str}}}
+		inc.Add(money)
+		cur := &idl.Enum{Name: "Currency", Values: []*idl.EnumValue{{Name: "EUR", Value: 1, Explicit: true}, {Name: "USD", Value: 2, Explicit: true}}}
+		inc.Add(cur)
+		amt := &idl.Typedef{Name: "Amounts", Type: idl.ListOf(idl.StructT(money))}
+		inc.Add(amt)
+		oops := &idl.Struct{Cat: "exception", Name: "Oops", Fields: []*idl.Field{{ID: 1, ExplicitID: true, Name: "m", Type: str}}}
+		inc.Add(oops)
+		kc := &idl.Const{Name: "DEFAULT_CURRENCY", Type: idl.EnumT(cur), Value: idl.VE(cur, cur.Values[1])}
+		inc.Add(kc)
+		base := &idl.Service{Name: "Ledger", Functions: []*idl.Function{{Name: "balance", Ret: idl.StructT(money)}}}
+		inc.Add(base)
+		m := &idl.File{Path: "shop.thrift", Includes: []*idl.Include{{Path: "common.v1.thrift", File: inc}}, Namespaces: []*idl.Namespace{{Lang: "go", Name: "dot.shop"}}}
+		m.Add(&idl.Struct{Cat: "struct", Name: "Order", Fields: []*idl.Field{{ID: 1, ExplicitID: true, Name: "total", Type: idl.StructT(money)}, {ID: 2, ExplicitID: true, Name: "cur", Type: idl.EnumT(cur), Default: idl.VE(cur, cur.Values[0])},
+			{ID: 3, ExplicitID: true, Name: "parts", Type: idl.TypedefT(amt), Req: idl.ReqOptional}, {ID: 4, ExplicitID: true, Name: "byCur", Type: idl.MapOf(idl.EnumT(cur), idl.ListOf(idl.StructT(money)))}}})
+		m.Add(&idl.Typedef{Name: "Price", Type: idl.StructT(money)})
+		m.Add(&idl.Const{Name: "SHOP_CURRENCY", Type: idl.EnumT(cur), Value: idl.VC(kc)})
+		m.Add(&idl.Service{Name: "Shop", Extends: base, Functions: []*idl.Function{{Name: "pay", Ret: idl.StructT(money), Args: []*idl.Field{{ID: 1, ExplicitID: true, Name: "m", Type: idl.StructT(money)}}, Throws: []*idl.Field{{ID: 1, ExplicitID: true, Name: "e", Type: idl.StructT(oops)}}}}})
+		out = append(out, &Prog{Name: "include-name-with-dots", Files: []*idl.File{m, inc}})
+	}
+	{
+		core := &idl.File{Path: "core.thrift", Namespaces: []*idl.Namespace{{Lang: "go", Name: "chain.core"}}}
+		root := &idl.Service{Name: "Root", Functions: []*idl.Function{{Name: "rootPing"}, {Name: "rootVersion", Ret: i32}}}
+		core.Add(root)
+		mid := &idl.Service{Name: "Mid", Extends: root, Functions: []*idl.Function{{Name: "midOp", Ret: str}}}
+		core.Add(mid)
+		api := &idl.File{Path: "api.thrift", Includes: []*idl.Include{{Path: "core.thrift", File: core}}, Namespaces: []*idl.Namespace{{Lang: "go", Name: "chain.api"}}}
+		// an unrelated service that happens to carry the grandparent's name
+		api.Add(&idl.Service{Name: "Root", Functions: []*idl.Function{{Name: "adminOnly"}}})
+		apiSvc := &idl.Service{Name: "Api", Extends: mid, Functions: []*idl.Function{{Name: "apiCall", Ret: i32, Args: []*idl.Field{{ID: 1, ExplicitID: true, Name: "n", Type: i32}}}}}
+		api.Add(apiSvc)
+		api.Add(&idl.Service{Name: "Api2", Extends: apiSvc, Functions: []*idl.Function{{Name: "more"}}})
+		out = append(out, &Prog{Name: "service-chain-across-files", Files: []*idl.File{api, core}})
+	}
+	return out
+}
